@@ -65,6 +65,15 @@ fn gen_tags(spec: &Value, port: usize, len: usize, rng: &mut Rng) -> Vec<(usize,
             }
             return out;
         }
+        "sync" => {
+            // frame sync marks (IL2P deframer): one every 1..250 samples, now and then two close together
+            let mut p = rng.below(20);
+            while p < len {
+                out.push((p, "sync".to_string(), TagValue::Bool(true)));
+                p += 1 + if rng.chance(1, 4) { rng.below(6) } else { rng.below(250) };
+            }
+            return out;
+        }
         "first_last" => {
             push(&mut out, 0);
             push(&mut out, len - 1);
